@@ -180,5 +180,17 @@ theorem shared_event_not_added_again :
 
 example : mergePatches [a] [b] = .pushRemote [a, b] := by decide
 example : mergePatches [a] [a, b] = .rewindLocal [a, b] := by decide
+/-! ### a log without a first common event (the FILE log of a young account) -/
+
+private def fa : Rec := { time := 2, commit := H.leaf [1], bytes := [1] }
+private def fb : Rec := { time := 3, commit := H.leaf [2], bytes := [2] }
+
+/-- Witness (KNOWN FINDING C05/file-log-without-common-event): the log was empty when the
+devices diverged and each made an event (attached its first external file).  The first
+device's call pushes its event; for the second device the ancestor search finds no common
+commit, which the protocol treats as a hard conflict: the server's log replaces the device's
+and the device's own event `fb` is gone, with an outcome that is not an error. -/
+theorem first_events_on_two_devices_one_is_lost :
+    syncLog [fb] [fa] = ([fa], [fa], .hardConflict) := by decide
 
 end Sos.Props.C05
